@@ -1,4 +1,3 @@
-(* C05_Proofs.v — the serial unscented correction model at the MathComp instance. *)
 Require Import ZArith List.
 Require Import BFL.Ops BFL.Density BFL.C05_Model.
 From mathcomp Require Import all_ssreflect all_algebra.
@@ -9,6 +8,327 @@ Unset Printing Implicit Defensive.
 Import Order.Theory GRing.Theory Num.Theory.
 Local Open Scope ring_scope.
 
+(* ---------------------------------------------------------------------- *)
+(* A. The algebra of the serial form: X, Y the weighted, mean-shifted sigma
+      points of state and measurement, R the (SPD) noise covariance.        *)
+Section Algebra.
+Variable F : realFieldType.
+Variables (n m L : nat).
+Variables (X : 'M[F]_(n,L)) (Y : 'M[F]_(m,L)) (R : 'M[F]_m) (nu : 'cV[F]_m).
+Hypothesis spdR : spd R.
+
+Let Ci := 1%:M + Y^T *m invmx R *m Y.
+Let S := Y *m Y^T + R.
+
+Lemma YYt_psd : psd (Y *m Y^T).
+Proof.
+have -> : Y *m Y^T = Y *m 1%:M *m Y^T by rewrite mulmx1.
+by apply: psd_congr; apply: spd_psd; exact: spd1.
+Qed.
+
+Lemma serial_S_spd : spd S.
+Proof. by apply: psd_spd_add => //; exact: YYt_psd. Qed.
+Lemma serial_S_unit : S \in unitmx. Proof. exact: spd_unit serial_S_spd. Qed.
+Lemma serial_S_sym : S^T = S. Proof. by case: serial_S_spd. Qed.
+
+Lemma serial_Ci_spd : spd Ci.
+Proof.
+rewrite /Ci addrC; apply: psd_spd_add; last exact: spd1.
+have -> : Y^T *m invmx R *m Y = Y^T *m invmx R *m Y^T^T by rewrite trmxK.
+by apply: psd_congr; apply: spd_psd; apply: spd_inv.
+Qed.
+Lemma serial_Ci_unit : Ci \in unitmx. Proof. exact: spd_unit serial_Ci_spd. Qed.
+
+(* Y^T R^-1 S = Ci Y^T *)
+Lemma serial_swap : Y^T *m invmx R *m S = Ci *m Y^T.
+Proof.
+have uR := spd_unit spdR.
+rewrite /S /Ci mulmxDr mulmxDl mul1mx -[Y^T *m invmx R *m R]mulmxA (mulVmx uR) mulmx1.
+by rewrite !mulmxA addrC.
+Qed.
+
+(* push-through identity *)
+Lemma serial_push_through : invmx Ci *m (Y^T *m invmx R) = Y^T *m invmx S.
+Proof.
+have uS := serial_S_unit. have uC := serial_Ci_unit.
+have E : Y^T *m invmx R = Ci *m Y^T *m invmx S.
+  by rewrite -serial_swap -[_ *m S *m _]mulmxA (mulmxV uS) mulmx1.
+by rewrite E -mulmxA (mulKmx uC).
+Qed.
+
+Lemma serial_Ci_inv : invmx Ci = 1%:M - Y^T *m invmx S *m Y.
+Proof.
+have uS := serial_S_unit. have uC := serial_Ci_unit.
+have E : Ci *m (1%:M - Y^T *m invmx S *m Y) = 1%:M.
+  rewrite mulmxBr mulmx1 !mulmxA -serial_swap.
+  rewrite -[_ *m S *m invmx S]mulmxA (mulmxV uS) mulmx1 /Ci.
+  by rewrite addrK.
+by have := congr1 (mulmx (invmx Ci)) E; rewrite (mulKmx uC) mulmx1 => <-.
+Qed.
+
+(* covariance: X Ci^-1 X^T = X X^T - K S K^T with K = X Y^T S^-1 *)
+Lemma serial_cov :
+  X *m invmx Ci *m X^T =
+  X *m X^T - (X *m Y^T *m invmx S) *m S *m (X *m Y^T *m invmx S)^T.
+Proof.
+have uS := serial_S_unit.
+rewrite serial_Ci_inv mulmxBr mulmx1 mulmxBl; congr (_ - _).
+rewrite !trmx_mul trmxK trmx_inv serial_S_sym.
+rewrite -[_ *m invmx S *m S]mulmxA (mulVmx uS) mulmx1.
+by rewrite !mulmxA.
+Qed.
+
+(* mean: X Ci^-1 (Y^T R^-1 nu) = K nu *)
+Lemma serial_mean :
+  X *m invmx Ci *m (Y^T *m invmx R *m nu) = X *m Y^T *m invmx S *m nu.
+Proof.
+by rewrite -[X *m invmx Ci *m _]mulmxA [invmx Ci *m _]mulmxA serial_push_through !mulmxA.
+Qed.
+
+(* Woodbury on the quadratic form of the UVR density *)
+Lemma serial_quadform :
+  (nu^T *m invmx R) *m (1%:M - Y *m invmx Ci *m (Y^T *m invmx R)) *m nu =
+  nu^T *m invmx S *m nu.
+Proof.
+have uS := serial_S_unit. have uR := spd_unit spdR.
+rewrite -[Y *m invmx Ci *m _]mulmxA serial_push_through.
+have -> : 1%:M - Y *m (Y^T *m invmx S) = R *m invmx S.
+  rewrite -[1%:M](mulmxV uS) mulmxA -mulmxBl; congr (_ *m _).
+  by rewrite /S [Y *m Y^T + R]addrC addrK.
+by rewrite !mulmxA -[_ *m invmx R *m R]mulmxA (mulVmx uR) mulmx1.
+Qed.
+
+End Algebra.
+
+(* matrix determinant lemma *)
+Section DetLemma.
+Variable F : fieldType.
+Variables (d k : nat) (R : 'M[F]_d) (U : 'M[F]_(d,k)) (V : 'M[F]_(k,d)).
+Hypothesis uR : R \in unitmx.
+Lemma det_lemma : \det (R + U *m V) = \det R * \det (1%:M + V *m invmx R *m U).
+Proof.
+pose B : 'M[F]_(d + k) := block_mx R (- U) V 1%:M.
+have E1 : B = block_mx 1%:M 0 (V *m invmx R) 1%:M *m block_mx R (- U) 0 (1%:M + V *m invmx R *m U).
+  rewrite mulmx_block ?mul1mx ?mul0mx ?mulmx0 ?addr0 -[V *m invmx R *m R]mulmxA (mulVmx uR) mulmx1.
+  by rewrite mulmxN addrCA addNr addr0.
+have E2 : B = block_mx (R + U *m V) (- U) 0 1%:M *m block_mx 1%:M 0 V 1%:M.
+  rewrite mulmx_block ?mulmx1 ?mul0mx ?mulmx0 ?add0r ?addr0 ?mul1mx.
+  by rewrite mulNmx addrK.
+have := E1; rewrite {1}E2 => /(congr1 determinant).
+rewrite !det_mulmx !det_ublock !det_lblock !det1 !mulr1 !mul1r.
+by move=> ->.
+Qed.
+End DetLemma.
+
+(* ---------------------------------------------------------------------- *)
+(* B. Block-diagonal matrices with k blocks of size s, assembled recursively
+      ((k+1)*s is convertible with s + k*s, so block_mx needs no cast).     *)
+Section BlockDiag.
+Variable F : realFieldType.
+
+Lemma spd_block n1 n2 (A : 'M[F]_n1) (B : 'M[F]_n2) :
+  spd A -> spd B -> spd (block_mx A 0 0 B).
+Proof.
+case=> sA pA [sB pB]; split.
+  by rewrite /sym tr_block_mx !trmx0 sA sB.
+move=> x xn0; rewrite -(hsubmxK x) /qf mul_row_block tr_row_mx mul_row_col.
+rewrite !mulmx0 addr0 add0r mxE.
+have [l0|ln0] := eqVneq (lsubmx x) 0.
+  have rn0 : rsubmx x != 0.
+    by apply: contra xn0 => /eqP r0; rewrite -(hsubmxK x) l0 r0 row_mx0.
+  by rewrite l0 !mul0mx mxE add0r; exact: pB.
+have [r0|rn0] := eqVneq (rsubmx x) 0.
+  by rewrite r0 !mul0mx [X in _ + X]mxE addr0; exact: pA.
+by apply: addr_gt0; [exact: pA | exact: pB].
+Qed.
+
+Lemma spd_mx0 (A : 'M[F]_0) : spd A.
+Proof.
+split; first by rewrite /sym; apply/matrixP; case.
+by move=> x; rewrite (thinmx0 x) eqxx.
+Qed.
+
+Variable s : nat.
+
+Fixpoint bdiag (k : nat) (Rb : nat -> 'M[F]_s) : 'M[F]_(k * s) :=
+  match k return 'M[F]_(k * s) with
+  | 0%N => 0
+  | k'.+1 => block_mx (Rb 0%N) 0 0 (bdiag k' (fun j => Rb j.+1))
+  end.
+
+Lemma bdiag_spd k Rb : (forall j, (j < k)%N -> spd (Rb j)) -> spd (bdiag k Rb).
+Proof.
+elim: k Rb => [|k IH] Rb H /=; first exact: spd_mx0.
+by apply: spd_block; [exact: H | apply: IH => j jk; exact: H].
+Qed.
+
+Lemma bdiag_ext k Rb Rb' : (forall j, (j < k)%N -> Rb j = Rb' j) -> bdiag k Rb = bdiag k Rb'.
+Proof.
+elim: k Rb Rb' => [|k IH] Rb Rb' H //=.
+by rewrite (H 0%N) // (IH _ (fun j => Rb' j.+1)) // => j jk; exact: H.
+Qed.
+
+Lemma bdiag_unit k Rb : (forall j, (j < k)%N -> Rb j \in unitmx) -> bdiag k Rb \in unitmx.
+Proof.
+elim: k Rb => [|k IH] Rb H /=; first by rewrite unitmxE det_mx00 unitr1.
+by rewrite block_diag_mx_unit H //= IH // => j jk; exact: H.
+Qed.
+
+Lemma bdiag_inv k Rb : (forall j, (j < k)%N -> Rb j \in unitmx) ->
+  invmx (bdiag k Rb) = bdiag k (fun j => invmx (Rb j)).
+Proof.
+elim: k Rb => [|k IH] Rb H /=.
+  by apply/matrixP; case.
+have u0 : Rb 0%N \in unitmx by exact: H.
+have uk : bdiag k (fun j => Rb j.+1) \in unitmx by apply: bdiag_unit => j jk; exact: H.
+by rewrite invmx_block_diag ?block_diag_mx_unit ?u0 ?uk // IH // => j jk; exact: H.
+Qed.
+
+Lemma bdiag_det k Rb : \det (bdiag k Rb) = \prod_(j < k) \det (Rb j).
+Proof.
+elim: k Rb => [|k IH] Rb /=; first by rewrite det_mx00 big_ord0.
+by rewrite det_ublock IH big_ord_recl.
+Qed.
+
+(* the slices of the model (mslice with nat offsets) on block-structured matrices *)
+Lemma mx_get_nat m n (A : 'M[F]_(m,n)) (i j : nat) (Hi : (i < m)%N) (Hj : (j < n)%N) :
+  mx_get A i j = A (Ordinal Hi) (Ordinal Hj).
+Proof. by rewrite /mx_get !insubT. Qed.
+
+Lemma mx_get_dsub m1 m2 n (A : 'M[F]_(m1 + m2, n)) a c :
+  mx_get (dsubmx A) a c = mx_get A (m1 + a) c.
+Proof.
+case: (ltnP c n) => cn; last by rewrite !mx_get_out_c.
+case: (ltnP a m2) => am; last by rewrite !mx_get_out_r // leq_add2l.
+have am' : (m1 + a < m1 + m2)%N by rewrite ltn_add2l.
+rewrite (mx_get_nat _ am cn) (mx_get_nat _ am' cn) mxE.
+by congr (A _ _); apply: val_inj.
+Qed.
+
+Lemma mx_get_usub m1 m2 n (A : 'M[F]_(m1 + m2, n)) a c : (a < m1)%N ->
+  mx_get (usubmx A) a c = mx_get A a c.
+Proof.
+move=> am; case: (ltnP c n) => cn; last by rewrite !mx_get_out_c.
+have am' : (a < m1 + m2)%N by apply: leq_trans am (leq_addr _ _).
+rewrite (mx_get_nat _ am cn) (mx_get_nat _ am' cn) mxE.
+by congr (A _ _); apply: val_inj.
+Qed.
+
+Lemma mx_get_block_ul n1 n2 (A : 'M[F]_n1) (B : 'M[F]_n2) a c : (a < n1)%N -> (c < n1)%N ->
+  mx_get (block_mx A 0 0 B) a c = mx_get A a c.
+Proof.
+move=> an cn.
+have an' : (a < n1 + n2)%N by apply: leq_trans an (leq_addr _ _).
+have cn' : (c < n1 + n2)%N by apply: leq_trans cn (leq_addr _ _).
+rewrite (mx_get_nat _ an' cn') (mx_get_nat _ an cn).
+have -> : Ordinal an' = lshift n2 (Ordinal an) by apply: val_inj.
+have -> : Ordinal cn' = lshift n2 (Ordinal cn) by apply: val_inj.
+by rewrite block_mxEul.
+Qed.
+
+Lemma mx_get_block_dr n1 n2 (A : 'M[F]_n1) (B : 'M[F]_n2) a c :
+  mx_get (block_mx A 0 0 B) (n1 + a) (n1 + c) = mx_get B a c.
+Proof.
+case: (ltnP a n2) => an; last by rewrite !mx_get_out_r // leq_add2l.
+case: (ltnP c n2) => cn; last by rewrite !mx_get_out_c // leq_add2l.
+have an' : (n1 + a < n1 + n2)%N by rewrite ltn_add2l.
+have cn' : (n1 + c < n1 + n2)%N by rewrite ltn_add2l.
+rewrite (mx_get_nat _ an' cn') (mx_get_nat _ an cn).
+have -> : Ordinal an' = rshift n1 (Ordinal an) by apply: val_inj.
+have -> : Ordinal cn' = rshift n1 (Ordinal cn) by apply: val_inj.
+by rewrite block_mxEdr.
+Qed.
+
+(* row block j of Y (s rows from s*j), diagonal block j of R *)
+Definition rblk m L (j : nat) (Y : 'M[F]_(m, L)) : 'M[F]_(s, L) :=
+  \matrix_(i, c) mx_get Y (s * j + i) c.
+Definition dblk m (j : nat) (R : 'M[F]_m) : 'M[F]_s :=
+  \matrix_(i, c) mx_get R (s * j + i) (s * j + c).
+
+Lemma rblk0 k L (Y : 'M[F]_(s + k * s, L)) : rblk 0 Y = usubmx Y.
+Proof.
+apply/matrixP=> i c; rewrite mxE muln0 add0n -mx_get_usub //.
+by rewrite mx_get_ord.
+Qed.
+
+Lemma rblkS k L j (Y : 'M[F]_(s + k * s, L)) : rblk j.+1 Y = rblk j (dsubmx Y).
+Proof. by apply/matrixP=> i c; rewrite !mxE mx_get_dsub mulnS addnA. Qed.
+
+Lemma dblk_bdiag k Rb j : (j < k)%N -> dblk j (bdiag k Rb) = Rb j.
+Proof.
+elim: k Rb j => [|k IH] Rb [|j] //= jk.
+  apply/matrixP=> i c; rewrite mxE muln0 !add0n mx_get_block_ul //.
+  by rewrite mx_get_ord.
+rewrite -(IH (fun j => Rb j.+1) j) //.
+by apply/matrixP=> i c; rewrite !mxE mulnS -!addnA mx_get_block_dr.
+Qed.
+
+(* block sum: sum_j Y_j^T G_j Z_j = Y^T blockdiag(G) Z *)
+Lemma bdiag_sum k L L' (G : nat -> 'M[F]_s) (Y : 'M[F]_(k * s, L)) (Z : 'M[F]_(k * s, L')) :
+  \sum_(j < k) (rblk j Y)^T *m G j *m rblk j Z = Y^T *m bdiag k G *m Z.
+Proof.
+elim: k G Y Z => [|k IH] G Y Z.
+  rewrite big_ord0 /=; apply/matrixP=> i c; rewrite !mxE big_ord0 //.
+rewrite big_ord_recl /= !rblk0.
+have -> : \sum_(i < k) (rblk (bump 0 i) Y)^T *m G (bump 0 i) *m rblk (bump 0 i) Z =
+          (dsubmx Y)^T *m bdiag k (fun j => G j.+1) *m dsubmx Z.
+  by rewrite -IH; apply: eq_bigr => i _; rewrite /bump /= add1n !rblkS.
+rewrite -{3}(vsubmxK Y) -{3}(vsubmxK Z) tr_col_mx mul_row_block mul_row_col.
+by rewrite !mulmx0 addr0 add0r.
+Qed.
+
+(* column blocks: V blockdiag(G) assembled block by block, read back at column b
+   from block b / s, column b mod s (the layout of V_inv_R / diff_T_inv_R in the
+   UVR density) *)
+Lemma mx_get_tr m n (A : 'M[F]_(m, n)) i j : mx_get A^T i j = mx_get A j i.
+Proof.
+case: (ltnP i n) => io; last by rewrite mx_get_out_r // mx_get_out_c.
+case: (ltnP j m) => jo; last by rewrite mx_get_out_c // mx_get_out_r.
+by rewrite (mx_get_nat _ io jo) (mx_get_nat _ jo io) mxE.
+Qed.
+
+Lemma mx_get_rsub m n1 n2 (A : 'M[F]_(m, n1 + n2)) a c :
+  mx_get (rsubmx A) a c = mx_get A a (n1 + c).
+Proof. by rewrite -mx_get_tr -[in RHS]mx_get_tr trmx_rsub mx_get_dsub. Qed.
+
+Lemma mx_get_lsub m n1 n2 (A : 'M[F]_(m, n1 + n2)) a c : (c < n1)%N ->
+  mx_get (lsubmx A) a c = mx_get A a c.
+Proof. by move=> cn; rewrite -mx_get_tr -[in RHS]mx_get_tr trmx_lsub mx_get_usub. Qed.
+
+Definition cblk L m (j : nat) (V : 'M[F]_(L, m)) : 'M[F]_(L, s) :=
+  \matrix_(a, c) mx_get V a (j * s + c).
+
+Lemma cblk0 k L (V : 'M[F]_(L, s + k * s)) : cblk 0 V = lsubmx V.
+Proof. by apply/matrixP=> a c; rewrite mxE mul0n add0n -mx_get_lsub // mx_get_ord. Qed.
+
+Lemma cblkS k L j (V : 'M[F]_(L, s + k * s)) : cblk j.+1 V = cblk j (rsubmx V).
+Proof. by apply/matrixP=> a c; rewrite !mxE mx_get_rsub mulSn addnA. Qed.
+
+Lemma rblk_tr m L j (Y : 'M[F]_(m, L)) : (rblk j Y)^T = cblk j Y^T.
+Proof. by apply/matrixP=> a c; rewrite !mxE mx_get_tr mulnC. Qed.
+
+Lemma mul_bdiag_cols k L (G : nat -> 'M[F]_s) (V : 'M[F]_(L, k * s)) (Bk : nat -> 'M[F]_(L, s)) :
+  (0 < s)%N -> (forall j, (j < k)%N -> Bk j = cblk j V *m G j) ->
+  V *m bdiag k G = \matrix_(a, b) mx_get (Bk (Nat.div b s)) a (Nat.modulo b s).
+Proof.
+move=> s0; have sn0 : s <> 0%N by case: s s0.
+have E1 c : Nat.div (s + c) s = (Nat.div c s).+1.
+  by rewrite -{1}(mul1n s) Nat.div_add_l.
+have E2 c : Nat.modulo (s + c) s = Nat.modulo c s.
+  by rewrite addnC; have := Nat.mod_add c 1 s sn0; rewrite /= Nat.add_0_r.
+elim: k G V Bk => [|k IH] G V Bk HB; first by apply/matrixP=> a [].
+rewrite /= -{1}(hsubmxK V) mul_row_block !mulmx0 addr0 add0r.
+rewrite (IH _ _ (fun j => Bk j.+1)); last by move=> j jk; rewrite HB // cblkS.
+apply/matrixP=> a b; rewrite [RHS]mxE.
+case: (split_ordP b) => [b0 ->|b1 ->]; rewrite ?row_mxEl ?row_mxEr.
+  have b0s := elimT ssrnat.ltP (ltn_ord b0).
+  by rewrite /= Nat.div_small // Nat.mod_small // HB // cblk0 mx_get_ord.
+by rewrite mxE /= E1 E2.
+Qed.
+End BlockDiag.
+
+(* ---------------------------------------------------------------------- *)
+(* C. The model at the MathComp instance.                                   *)
 Section Model.
 Variable F : realFieldType.
 Variable tr : Transc F.
@@ -16,13 +336,329 @@ Variable sq : forall n, 'M[F]_n -> 'M[F]_n.
 Variable eg : forall n, 'M[F]_n -> 'M[F]_(n,1).
 Let O := MxMat tr sq eg.
 
-Lemma sukf_size_mismatch n m s (w : utw O) (h : M O n 1 -> M O m 1) (y : M O m 1)
-      (nz : noise O s m) prev (pred corr_prev : mixture O n) :
-  Nat.modulo m s <> 0%N ->
-  sukf_correct w h y nz prev pred corr_prev = (pred, prev).
+Lemma div_ks k s : (0 < s)%N -> Nat.div (k * s) s = k.
+Proof. by move=> s0; apply: Nat.div_mul; case: s s0. Qed.
+Lemma mod_ks k s : (0 < s)%N -> Nat.modulo (k * s) s = 0%N.
+Proof. by move=> s0; apply: Nat.mod_mul; case: s s0. Qed.
+
+Lemma eqbE (i j : nat) : Nat.eqb i j = (i == j).
+Proof. by apply/idP/eqP => [/Nat.eqb_eq|->] //; exact: Nat.eqb_refl. Qed.
+
+Lemma mx_get_col0 r (v : 'cV[F]_r) (i : 'I_r) : mx_get v i 0 = v i 0.
+Proof. by rewrite (mx_get_nat v (ltn_ord i) (ltn0Sn 0)); congr (v _ _); apply: val_inj. Qed.
+
+(* ---- serial accumulation = block sums ---- *)
+Section Accum.
+Variables (s k L : nat).
+Notation m := (k * s)%N.
+
+(* the noise handed to the SUKF has diagonal blocks Rb 0 .. Rb (k-1) *)
+Definition noise_blocks (nz : noise O s m) (Rb : nat -> 'M[F]_s) : Prop :=
+  match nz with
+  | NoiseReduced R0 => forall j, (j < k)%N -> Rb j = R0
+  | NoiseFull R => R = bdiag k Rb
+  end.
+
+Lemma noise_blockE (nz : noise O s m) Rb j : noise_blocks nz Rb -> (j < k)%N ->
+  noise_block nz j = Rb j.
 Proof.
-move=> ne; rewrite /sukf_correct.
-by case E: (Nat.eqb _ _) => //; move/Nat.eqb_eq: E.
+case: nz => [R0|R] /= H jk; first by rewrite H.
+by rewrite H; exact: dblk_bdiag.
 Qed.
 
+Lemma accum_fold (Y : M O m L) (nu : M O m 1) (nz : noise O s m) q (acc : M O L L * M O L 1) :
+  List.fold_left (sukf_accum_step Y nu nz) (List.seq 0%N q) acc =
+  (acc.1 + \sum_(j < q) (rblk s j Y)^T *m invmx (noise_block nz j) *m rblk s j Y,
+   acc.2 + \sum_(j < q) (rblk s j Y)^T *m invmx (noise_block nz j) *m rblk s j nu).
+Proof.
+elim: q => [|q IH]; first by rewrite !big_ord0 !addr0 /=; case: acc.
+by rewrite List.seq_S List.fold_left_app IH /= !big_ord_recr /= !addrA.
+Qed.
+
+Lemma sukf_accum_blocks (Y : M O m L) (nu : M O m 1) (nz : noise O s m) Rb :
+  (0 < s)%N -> noise_blocks nz Rb -> (forall j, (j < k)%N -> Rb j \in unitmx) ->
+  sukf_accum Y nu nz =
+  (1%:M + Y^T *m invmx (bdiag k Rb) *m Y, Y^T *m invmx (bdiag k Rb) *m nu).
+Proof.
+move=> s0 Hnz uR; rewrite /sukf_accum div_ks // accum_fold /= add0r bdiag_inv //.
+rewrite -!bdiag_sum; congr (_ + _, _).
+  by apply: eq_bigr => j _; rewrite (noise_blockE Hnz).
+by apply: eq_bigr => j _; rewrite (noise_blockE Hnz).
+Qed.
+
+(* the reduced constructor = the full one with equal blocks *)
+Lemma sukf_accum_reduced (Y : M O m L) (nu : M O m 1) (R0 : 'M[F]_s) : (0 < s)%N ->
+  sukf_accum Y nu (@NoiseReduced O s m R0) =
+  sukf_accum Y nu (@NoiseFull O s m (bdiag k (fun _ => R0))).
+Proof.
+move=> s0; rewrite /sukf_accum div_ks // !accum_fold.
+have E j : (j < k)%N -> noise_block (@NoiseFull O s m (bdiag k (fun _ => R0))) j = R0.
+  by move=> jk; rewrite (@noise_blockE _ (fun _ => R0)).
+by congr (_ + _, _ + _); apply: eq_bigr => j _; rewrite E.
+Qed.
+End Accum.
+
+(* ---- weights, diagonal weighting, sigma points ---- *)
+Hypothesis sqrt_ok : forall x : F, 0 <= x -> t_sqrt tr x * t_sqrt tr x = x.
+
+Lemma mdiag_ofE L (d : nat -> F) : mdiag_of O L d = diag_mx (\row_j d j).
+Proof.
+apply/matrixP=> i j; rewrite !mxE eqbE -val_eqE.
+by case: (val i == val j); rewrite ?mulr1n ?mulr0n.
+Qed.
+
+Section Weights.
+Variables (w : utw O) (L : nat).
+Hypothesis wc0_ge0 : 0 <= wc0 w.
+Hypothesis wci_ge0 : 0 <= wci w.
+
+Lemma wc_at_ge0 j : 0 <= wc_at w j.
+Proof. by rewrite /wc_at; case: Nat.eqb. Qed.
+
+Lemma sqrtD_sq : sqrt_wcov_diag L w *m sqrt_wcov_diag L w = wcov_diag L w.
+Proof.
+rewrite /sqrt_wcov_diag /wcov_diag !mdiag_ofE mulmx_diag; congr diag_mx.
+by apply/rowP=> j; rewrite !mxE sqrt_ok // wc_at_ge0.
+Qed.
+
+Lemma sqrtD_tr : (sqrt_wcov_diag L w)^T = sqrt_wcov_diag L w.
+Proof. by rewrite /sqrt_wcov_diag mdiag_ofE tr_diag_mx. Qed.
+
+(* (Xc D)(Yc D)^T = Xc W Yc^T *)
+Lemma weighted_cross a b (Xc : 'M[F]_(a, L)) (Yc : 'M[F]_(b, L)) :
+  (Xc *m sqrt_wcov_diag L w) *m (Yc *m sqrt_wcov_diag L w)^T = Xc *m wcov_diag L w *m Yc^T.
+Proof. by rewrite trmx_mul sqrtD_tr !mulmxA -[Xc *m _ *m _]mulmxA sqrtD_sq. Qed.
+End Weights.
+
+Lemma mcolwise_subE r c (X : 'M[F]_(r, c)) (v : 'cV[F]_r) :
+  mcolwise_sub (O:=O) X v = \matrix_(i, j) (X i j - v i 0).
+Proof. by apply/matrixP=> i j; rewrite !mxE /= mx_get_ord mx_get_col0. Qed.
+
+Lemma mcolwise_add_sub r c (X : 'M[F]_(r, c)) (v : 'cV[F]_r) :
+  mcolwise_sub (O:=O) (mcolwise_add (O:=O) X v) v = X.
+Proof. by apply/matrixP=> i j; rewrite !mxE /= !mx_get_ord mxE /= !mx_get_ord mx_get_col0 addrK. Qed.
+
+(* [Z | U | V] diag(d) with d constant after the first entry *)
+Lemma mul_row3_diag n (Z : 'M[F]_(n, 1)) (U V : 'M[F]_n) (d : nat -> F) (d1 : F) :
+  (forall j, d j.+1 = d1) ->
+  row_mx Z (row_mx U V) *m mdiag_of O (1 + (n + n)) d =
+  row_mx (d 0%N *: Z) (row_mx (d1 *: U) (d1 *: V)).
+Proof.
+move=> dS; rewrite mdiag_ofE mul_mx_diag.
+apply/matrixP=> i j; rewrite mxE [in LHS]mxE.
+case: (split_ordP j) => [j0 ->|j1 ->]; rewrite ?row_mxEl ?row_mxEr.
+  by rewrite !mxE ord1 mulrC.
+have -> : (\row_j0 d j0) 0 (rshift 1 j1) = d1 by rewrite mxE /= add1n dS.
+by case: (split_ordP j1) => [j2 ->|j2 ->]; rewrite ?row_mxEl ?row_mxEr !mxE mulrC.
+Qed.
+
+Lemma row3_gram n (Z : 'M[F]_(n, 1)) (U V : 'M[F]_n) :
+  row_mx Z (row_mx U V) *m (row_mx Z (row_mx U V))^T = Z *m Z^T + (U *m U^T + V *m V^T).
+Proof. by rewrite !tr_row_mx !mul_row_col. Qed.
+
+Section Sigma.
+Variables (n : nat) (w : utw O) (x : 'cV[F]_n) (P : 'M[F]_n).
+Hypothesis c_gt0 : 0 < utc w.
+Hypothesis wciE : wci w = ((1 + 1) * utc w)^-1.
+Hypothesis sqP : @sq n P *m (@sq n P)^T = P.
+
+Lemma wci_ge0_of_c : 0 <= wci w.
+Proof. by rewrite wciE invr_ge0; apply: mulr_ge0; [apply: addr_ge0; exact: ler01 | exact: ltW]. Qed.
+
+(* the weighted state offsets: X = (SP - x) sqrt(diag wc) *)
+Definition Xw := mcolwise_sub (O:=O) (sigma_points n (utc w) x P) x *m sqrt_wcov_diag (nsig n) w.
+
+Lemma XwE :
+  Xw = row_mx (0 : 'M[F]_(n, 1)) (row_mx ((t_sqrt tr (utc w) * t_sqrt tr (wci w)) *: @sq n P)
+                        ((- (t_sqrt tr (utc w) * t_sqrt tr (wci w))) *: @sq n P)).
+Proof.
+rewrite /Xw /sigma_points mcolwise_add_sub /sqrt_wcov_diag /perturbations.
+rewrite [LHS](@mul_row3_diag _ _ _ _ _ (t_sqrt tr (wci w))) //.
+by rewrite /= scaler0 !scalerA mulrN ![t_sqrt tr (wci w) * _]mulrC.
+Qed.
+
+Lemma Xw_cov : Xw *m Xw^T = P.
+Proof.
+rewrite XwE [LHS]row3_gram trmx0 mulmx0 add0r.
+set a := _ * _.
+rewrite !linearZ /= -!scalemxAl !scalerA mulrNN -scalerDl sqP.
+have -> : a * a + a * a = 1; last by rewrite scale1r.
+rewrite /a mulrACA !sqrt_ok ?wci_ge0_of_c ?ltW //.
+have -> : utc w * wci w + utc w * wci w = ((1 + 1) * utc w) * wci w by rewrite -mulrA mulrDl !mul1r.
+have pos : 0 < (1 + 1) * utc w by apply: mulr_gt0 => //; apply: addr_gt0; exact: ltr01.
+by rewrite wciE mulfV // gt_eqF.
+Qed.
+End Sigma.
+
+(* ---- one component: serial correction = additive UKF correction ---- *)
+Section Comp.
+Variables (n k s : nat).
+Notation m := (k * s)%N.
+Variables (w : utw O) (h : M O n 1 -> M O m 1) (y : M O m 1) (nz : noise O s m).
+Variables (Rb : nat -> 'M[F]_s) (x : 'cV[F]_n) (P : 'M[F]_n).
+Hypothesis s_gt0 : (0 < s)%N.
+Hypothesis c_gt0 : 0 < utc w.
+Hypothesis wciE : wci w = ((1 + 1) * utc w)^-1.
+Hypothesis wc0_ge0 : 0 <= wc0 w.
+Hypothesis sqP : @sq n P *m (@sq n P)^T = P.
+Hypothesis Hnz : noise_blocks nz Rb.
+Hypothesis spdRb : forall j, (j < k)%N -> spd (Rb j).
+
+Let R : 'M[F]_m := bdiag k Rb.
+Let so := sukf_correct_comp w h y nz x P.
+Let uo := ukf_correct_comp w h y (R : M O m m) x P.
+Let L := nsig n.
+Let Yraw : 'M[F]_(m, L) := propagate h (sigma_points n (utc w) x P).
+Let ybar : 'cV[F]_m := Yraw *m wmean_col L w.
+Let Yc : 'M[F]_(m, L) := mcolwise_sub (O:=O) Yraw ybar.
+Let Yw : 'M[F]_(m, L) := Yc *m sqrt_wcov_diag L w.
+Let X : 'M[F]_(n, L) := Xw w x P.
+Let nu : 'cV[F]_m := y - ybar.
+
+Lemma comp_R_spd : spd R. Proof. exact: bdiag_spd. Qed.
+Lemma comp_Rb_unit j : (j < k)%N -> Rb j \in unitmx.
+Proof. by move=> jk; apply: spd_unit; exact: spdRb. Qed.
+
+Lemma so_covE : so_cov so = X *m invmx (1%:M + Yw^T *m invmx R *m Yw) *m X^T.
+Proof.
+by rewrite /so /sukf_correct_comp (@sukf_accum_blocks _ _ _ _ _ _ Rb) //; exact: comp_Rb_unit.
+Qed.
+
+Lemma so_meanE :
+  so_mean so = x + X *m invmx (1%:M + Yw^T *m invmx R *m Yw) *m (Yw^T *m invmx R *m nu).
+Proof.
+by rewrite /so /sukf_correct_comp (@sukf_accum_blocks _ _ _ _ _ _ Rb) //; exact: comp_Rb_unit.
+Qed.
+
+Lemma so_innovE : so_innov so = nu. Proof. by []. Qed.
+Lemma so_YE : so_Y so = Yw. Proof. by []. Qed.
+
+Lemma uo_PyyE : uo_Pyy uo = Yw *m Yw^T + R.
+Proof.
+rewrite /uo /ukf_correct_comp /= -/L -/Yraw -/ybar -/Yc.
+by rewrite -(weighted_cross wc0_ge0 (wci_ge0_of_c c_gt0 wciE)).
+Qed.
+
+Lemma uo_innovE : uo_innov uo = nu. Proof. by []. Qed.
+
+Let K : 'M[F]_(n, m) := X *m Yw^T *m invmx (Yw *m Yw^T + R).
+
+Lemma uo_meanE : uo_mean uo = x + K *m nu.
+Proof.
+have := uo_PyyE; rewrite /uo /ukf_correct_comp /= -/L -/Yraw -/ybar -/Yc => ->.
+by rewrite -(weighted_cross wc0_ge0 (wci_ge0_of_c c_gt0 wciE)).
+Qed.
+
+Lemma uo_covE : uo_cov uo = P - K *m (Yw *m Yw^T + R) *m K^T.
+Proof.
+have := uo_PyyE; rewrite /uo /ukf_correct_comp /= -/L -/Yraw -/ybar -/Yc => ->.
+by rewrite -(weighted_cross wc0_ge0 (wci_ge0_of_c c_gt0 wciE)).
+Qed.
+
+Lemma sukf_comp_cov : so_cov so = uo_cov uo.
+Proof.
+rewrite so_covE uo_covE (serial_cov X Yw comp_R_spd).
+by rewrite /X (Xw_cov _ c_gt0 wciE sqP).
+Qed.
+
+Lemma sukf_comp_mean : so_mean so = uo_mean uo.
+Proof. by rewrite so_meanE uo_meanE (serial_mean X Yw nu comp_R_spd). Qed.
+
+End Comp.
+
+(* ---- likelihood: the UVR density as getLikelihood() calls it = the direct density ---- *)
+Lemma nth_map_seq A (f : nat -> A) q i d : (i < q)%N ->
+  List.nth i (List.map f (List.seq 0 q)) d = f i.
+Proof.
+move=> iq; have iq' := elimT ssrnat.ltP iq.
+rewrite (List.nth_indep _ d (f 0%N)) ?List.map_length ?List.seq_length //.
+by rewrite List.map_nth List.seq_nth.
+Qed.
+
+Lemma mx_get00 (A : 'M[F]_1) : mx_get A 0 0 = A 0 0.
+Proof. by rewrite (mx_get_nat A (ltn0Sn 0) (ltn0Sn 0)); congr (A _ _); apply: val_inj. Qed.
+
+Lemma fold_prod (f : nat -> F) q a :
+  List.fold_left (fun acc i => acc * f i) (List.seq 0 q) a = a * \prod_(j < q) f j.
+Proof.
+elim: q => [|q IH]; first by rewrite big_ord0 mulr1.
+by rewrite List.seq_S List.fold_left_app IH /= big_ord_recr /= mulrA.
+Qed.
+
+Lemma build_blocks_mul s k L (G : nat -> 'M[F]_s) (V : 'M[F]_(L, k * s))
+      (blocks : list 'M[F]_(L, s)) (dflt : 'M[F]_(L, s)) :
+  (0 < s)%N -> (forall j, (j < k)%N -> List.nth j blocks dflt = cblk s j V *m G j) ->
+  mbuild (m:=O) L (k * s) (fun a b => mget (m:=O) (List.nth (Nat.div b s) blocks dflt) a (Nat.modulo b s)) =
+  V *m bdiag k G.
+Proof. by move=> s0 H; rewrite (@mul_bdiag_cols _ _ _ _ _ _ (fun j => List.nth j blocks dflt)). Qed.
+
+Section Likelihood.
+Variables (s k L : nat).
+Notation m := (k * s)%N.
+Variables (nz : noise O s m) (Rb : nat -> 'M[F]_s).
+Hypothesis s_gt0 : (0 < s)%N.
+Hypothesis Hnz : noise_blocks nz Rb.
+Hypothesis spdRb : forall j, (j < k)%N -> spd (Rb j).
+
+Let R : 'M[F]_m := bdiag k Rb.
+Let sn0 : s <> 0%N. Proof. by case: s s_gt0. Qed.
+
+Lemma lik_Rcat_block i : (i < k)%N -> mslice 0 (s * i) s s (lik_Rcat nz) = Rb i.
+Proof.
+move=> ik; apply/matrixP=> a c; rewrite mxE /=.
+have cs := elimT ssrnat.ltP (ltn_ord c).
+have D : Nat.div (s * i + c) s = i.
+  by rewrite mulnC Nat.div_add_l // Nat.div_small //; exact: addn0.
+have Mo : Nat.modulo (s * i + c) s = c.
+  by rewrite mulnC addnC; have := Nat.mod_add c i s sn0 => ->; rewrite Nat.mod_small.
+have lt : (s * i + c < k * s)%N.
+  apply: (@leq_trans (i.+1 * s)); last by rewrite leq_mul2r ik orbT.
+  by rewrite mulSn [(s * i)%N]mulnC [(s + _)%N]addnC ltn_add2l.
+rewrite /lik_Rcat /= mx_get_build // D Mo div_ks // nth_map_seq // (noise_blockE Hnz) //.
+by rewrite mx_get_ord.
+Qed.
+
+Lemma uvr_is_direct (nu : 'cV[F]_m) (Y : 'M[F]_(m, L)) :
+  uvr_log_density (O:=O) nu (mzero m 1) Y (@mtr O m L Y) (lik_Rcat nz) =
+  log_density (O:=O) nu (mzero m 1) (Y *m Y^T + R).
+Proof.
+have spdR : spd R by exact: bdiag_spd.
+have uRb j : (j < k)%N -> Rb j \in unitmx by move=> jk; apply: spd_unit; exact: spdRb.
+rewrite /uvr_log_density /log_density div_ks //.
+have -> : mcolwise_sub (O:=O) nu (mzero m 1) = nu.
+  by rewrite mcolwise_subE; apply/matrixP=> i j; rewrite !mxE subr0 ord1.
+set iRl := (if Nat.eqb m s then List.map _ _ else _).
+have iRE i : (i < k)%N -> List.nth i iRl (mzero s s) = invmx (Rb i).
+  move=> ik; rewrite /iRl; case E: (Nat.eqb m s); last by rewrite nth_map_seq // lik_Rcat_block.
+  have k1 : k = 1%N.
+    by move/Nat.eqb_eq: E => /eqP; rewrite -{2}(mul1n s) eqn_pmul2r // => /eqP.
+  have k0 : (0 < k)%N by rewrite k1.
+  have -> : i = 0%N by move: ik; rewrite k1; case: i.
+  by rewrite nth_map_seq // lik_Rcat_block.
+set VR := mbuild L m _.
+have VRE : VR = Y^T *m invmx R.
+  rewrite /R bdiag_inv //; apply: build_blocks_mul => // j jk.
+  by rewrite nth_map_seq // iRE.
+set dR := mbuild 1 m _.
+have dRE : dR = nu^T *m invmx R.
+  rewrite /R bdiag_inv //; apply: build_blocks_mul => // j jk.
+  rewrite nth_map_seq // iRE //; congr (_ *m _).
+  by apply/matrixP=> a c; rewrite !mxE /= mx_get_tr.
+set detR := (if Nat.eqb m s then spow _ _ else _).
+have detRE : detR = \det R.
+  rewrite /detR /R bdiag_det; case E: (Nat.eqb m s).
+    have k1 : k = 1%N.
+      by move/Nat.eqb_eq: E => /eqP; rewrite -{2}(mul1n s) eqn_pmul2r // => /eqP.
+    have k0 : (0 < k)%N by rewrite k1.
+    have -> : \prod_(j < k) \det (Rb j) = \det (Rb 0%N) by rewrite k1 big_ord1.
+    have -> : forall x, spow (O:=O) x k = x by move=> x; rewrite k1 /= mulr1.
+    by rewrite lik_Rcat_block.
+  rewrite fold_prod mul1r; apply: eq_bigr => j _.
+  by rewrite lik_Rcat_block.
+rewrite /gauss_log_value VRE dRE detRE /=; congr (_ * (_ + _ + _)).
+  by rewrite [Y *m Y^T + R]addrC (det_lemma _ _ (spd_unit spdR)).
+rewrite /quadform /= !mx_get00 subr0.
+by rewrite -[Y *m invmx _ *m _]mulmxA [Y *m (invmx _ *m _)]mulmxA (serial_quadform Y nu spdR).
+Qed.
+End Likelihood.
 End Model.
